@@ -19,6 +19,7 @@ import (
 	"strconv"
 	"strings"
 	"testing"
+	"time"
 
 	"github.com/nuts-foundation/nuts-node/crypto/hash"
 )
@@ -100,9 +101,9 @@ type vc08Run struct {
 	nb     int
 	tr     Tree
 	shelf  map[uint32][]byte
-	pages  map[uint32]Data // reference: page -> data folded by the harness itself
+	pages  map[uint32]Data     // reference: page -> data folded by the harness itself
 	pagesX map[uint32][32]byte // XOR kind: the same reference kept byte-wise, independent of Xor/hash.SHA256Hash.Xor
-	contig bool            // every page below the highest one has been touched in order
+	contig bool                // every page below the highest one has been touched in order
 	npages uint32
 	nops   int
 	stats  map[string]int
@@ -252,7 +253,33 @@ func (r *vc08Run) page(p uint32) Data {
 }
 
 // exec runs one op on the real tree, fills in the derived fields (hk/idx, cs) and writes the three lines
+// exec with a watchdog: an operation of the real tree that does not return (e.g. the growth loop on a tree of size 0)
+// is reported as an outcome
 func (r *vc08Run) exec(op *vc08Op, rng *rand.Rand) {
+	done := make(chan struct{})
+	go func() {
+		defer close(done)
+		r.exec1(op, rng)
+	}()
+	select {
+	case <-done:
+	case <-time.After(30 * time.Second):
+		if op.Cs == nil {
+			op.Cs = []uint32{}
+		}
+		b, _ := json.Marshal(op)
+		r.ops.Write(b)
+		r.ops.WriteByte('\n')
+		r.impl.WriteString("hang:" + op.Op + "\n")
+		r.orc.WriteString("FAIL:operation-did-not-terminate:" + op.Op + " did not return within 30s\n")
+		r.ops.Flush()
+		r.impl.Flush()
+		r.orc.Flush()
+		os.Exit(0)
+	}
+}
+
+func (r *vc08Run) exec1(op *vc08Op, rng *rand.Rand) {
 	line := ""
 	func() {
 		defer func() {
